@@ -366,11 +366,106 @@ impl Model for MTags {
     }
 }
 
+// ---- one foreign label inside a long list -------------------------------------------------------------------
+
+#[derive(Copy, Clone, Debug, PartialEq, Eq, Hash, Serialize, Deserialize)]
+pub struct LSt {
+    a: Scheme,
+    b: Scheme,
+    n: usize,
+    /// 0 = position 1, 1 = the middle, 2 = the last position
+    pos: u8,
+    aggregate: bool,
+}
+
+pub struct M05Lists<C: Suite> {
+    /// sigs[scheme][i]: signer i over the common message (multi) - also used with distinct keys for the aggregate
+    sigs: Vec<Vec<Signature<C>>>,
+    _c: PhantomData<C>,
+}
+
+const LIST_NS: [usize; 7] = [3, 64, 65, 255, 1024, 1025, 1100];
+
+impl<C: Suite> M05Lists<C> {
+    pub fn new() -> Self {
+        let n = *LIST_NS.iter().max().unwrap();
+        let sks: Vec<SecretKey<C>> = (0..n).map(|i| SecretKey::<C>::from_hash(format!("c05-list-{}", i))).collect();
+        let sigs = SCHEMES.iter().map(|s| sks.iter().map(|k| k.sign(lib_scheme(*s), b"c05 list message").unwrap()).collect()).collect();
+        M05Lists { sigs, _c: PhantomData }
+    }
+}
+
+impl<C: Suite> Model for M05Lists<C> {
+    type State = Option<LSt>;
+    type Action = LSt;
+    fn name(&self) -> String {
+        format!("c05-foreign-label-in-a-list/{}", C::G)
+    }
+    fn init(&self) -> Vec<Option<LSt>> {
+        vec![None]
+    }
+    fn actions(&self, st: &Option<LSt>) -> Vec<LSt> {
+        if st.is_some() {
+            return vec![];
+        }
+        let mut v = vec![];
+        for a in SCHEMES {
+            for b in SCHEMES {
+                if a == b {
+                    continue;
+                }
+                for n in LIST_NS {
+                    for pos in 0..3u8 {
+                        for aggregate in [false, true] {
+                            v.push(LSt { a, b, n, pos, aggregate });
+                        }
+                    }
+                }
+            }
+        }
+        v
+    }
+    fn step(&self, _s: &Option<LSt>, a: &LSt) -> Option<Option<LSt>> {
+        Some(Some(*a))
+    }
+    fn describe(&self, st: &Option<LSt>) -> String {
+        format!("{} list of signatures, one entry carrying another scheme label: {:?}", C::G, st)
+    }
+    fn required_outcomes(&self) -> Vec<String> {
+        vec!["foreign-label:refused".into()]
+    }
+    fn check(&self, st: &Option<LSt>, o: &mut Obs) {
+        let Some(st) = st else { return };
+        o.nontrivial = true;
+        let g = C::G;
+        let mut list: Vec<Signature<C>> = self.sigs[st.a.idx()][..st.n].to_vec();
+        let p = match st.pos {
+            0 => 1,
+            1 => st.n / 2,
+            _ => st.n - 1,
+        };
+        list[p] = mk_sig::<C>(st.b, *list[p].as_raw_value());
+        let r = guard(|| if st.aggregate { AggregateSignature::<C>::from_signatures(&list).map(|_| ()) } else { MultiSignature::<C>::from_signatures(&list).map(|_| ()) });
+        o.calls(1);
+        let refused = matches!(r, Ok(Err(_)));
+        o.outcome(if refused { "foreign-label:refused" } else { "foreign-label:accepted" });
+        let band = if st.n > 1024 { ">1024" } else if st.n > 64 { ">64" } else { "<=64" };
+        o.expect(
+            &format!("C05:{}-with-a-foreign-label:{}:{}-in-{}:n{}", if st.aggregate { "aggregate" } else { "multi-signature" }, g, st.b.name(), st.a.name(), band),
+            refused,
+            "Err (mixed schemes)",
+            verdict(&r),
+        );
+    }
+}
+
 pub fn models(tier: Tier, seed: u64) -> Vec<Box<dyn DynModel>> {
     vec![
         bounded(M05::<Bls12381G1Impl>::new(tier, seed), 2),
         bounded(M05::<Bls12381G2Impl>::new(tier, seed), 2),
         bounded(MTags, 1),
+        bounded(M05Lists::<Bls12381G1Impl>::new(), 1),
+        bounded(M05Lists::<Bls12381G2Impl>::new(), 1),
     ]
     .into_iter()
     .chain(crate::props::aggx::models("C05", tier, seed))
